@@ -86,7 +86,8 @@ def verilog_names(rng, net, style):
         # not), keywords with a suffix, instance-like prefixes
         for _ in range(rng.randint(1, 2)):
             new = rng.choice(("tie_1_en", "tie_0_n", "tie_x2", "tie_00", "tie_", "tie", "tie_1x", "wire_1", "input_a",
-                              "output_q", "assign_0", "module_x", "not_", "buf_1", "_tie_0"))
+                              "output_q", "assign_0", "module_x", "not_", "buf_1", "_tie_0", "endmodule_n", "x_endmodule",
+                              "a$1", "n$", "endmodule$"))
             victim = rng.choice(plain_nodes)
             if new not in used and new not in KEYWORDS:
                 used.add(new)
